@@ -88,6 +88,7 @@ class FnContract:
         self.inserts = []     # {"where": "before"/"after", "pat": str, "lines": [...], "src_line": n}
         self.canary = True
         self.begin = []       # ghost text placed at the very start of the body
+        self.attrs = []       # ghost-only attributes placed before the fn (e.g. #[verifier::loop_isolation(false)])
 
 
 def parse_contracts(path):
@@ -129,6 +130,11 @@ def parse_contracts(path):
                 ins = {"where": m.group(1), "pat": m.group(2), "lines": [], "src_line": ln}
                 cur.inserts.append(ins)
                 sect = ins["lines"]
+                continue
+            if st.startswith("@attr "):
+                if cur is None:
+                    raise Undecided("bad-contract-file", f"{path}:{ln}: {st}")
+                cur.attrs.append(st[6:].strip())
                 continue
             if st == "@begin":
                 if cur is None:
@@ -336,7 +342,7 @@ def splice_item(item, contracts, unit_name, used, canaries):
         ob = text.rfind("{", 0, m.start())
         if ob < 0 or text[ob + 1:m.start()].strip() != "":
             raise Undecided("lost-anchor", f"{q}: cannot find body brace")
-        if c and (c.header or c.begin):
+        if c and (c.header or c.begin or c.attrs):
             blk = _block(f"{unit_name}|{q}|header|0", c.header) if c.header else ""
             bblk = _block(f"{unit_name}|{q}|begin|0", c.begin) if c.begin else ""
             f = fninfo.get(q, {})
@@ -361,6 +367,15 @@ def splice_item(item, contracts, unit_name, used, canaries):
                     m_end = m.end()
             else:
                 m_end = m.end()
+            if c.attrs:
+                sp = max(text.rfind("fn " + short + "(", 0, ob), text.rfind("fn " + short + "<", 0, ob))
+                if sp < 0:
+                    raise Undecided("lost-anchor", f"{q}: cannot place attributes")
+                ls2 = text.rfind("\n", 0, sp) + 1
+                atxt = "".join(a + "\n" for a in c.attrs)
+                text = text[:ls2] + atxt + text[ls2:]
+                ob += len(atxt)
+                m_end += len(atxt)
             new = text[:ob] + "\n" + blk + "{\n" + bblk
             text = new + text[m_end:]
             pos = len(new)
